@@ -1,5 +1,6 @@
 """C08 — mutability suggestions are never made for something the file writes to (DESIGN 5/C08, section 8.4)."""
 from runner import Ob
+from rules import depend
 import sites as S
 import terms as T
 import core
@@ -25,7 +26,7 @@ META = {
                    "recorded location, after all removals. sstore is compared with its spec directly.",
     "assumptions": ["state-variable names are unique and not shadowed (property quantifier)", "C01: the searches reach every syntactic position",
                     "HashMap::remove / contains_key / get contracts"],
-    "floors": {"R08.writes": 3, "R08.remove": 31, "R08.roots": 4, "R08.candidates": 3, "R08.report": 3},
+    "floors": {"R08.walker": 1, "R08.writes": 3, "R08.remove": 31, "R08.roots": 4, "R08.candidates": 3, "R08.report": 3},
 }
 
 OPT = "analyzer::optimizations::"
@@ -139,6 +140,10 @@ def _same_outer(body, a, b):
 
 def run(ctx, crate):
     obs = []
+    # occurrences count wherever they are nested: inherited from C01 (the search reaches every syntactic position)
+    obs.append(depend.inherited(ctx, crate, "R08.walker", "analyzer::ast::walk_node_for_targets", "the search reaches every nested position (C01's obligations on the walker)",
+                                "C01", lambda o: o.rule in ("R01.children", "R01.order", "R01.once", "R01.uncond", "R01.preorder", "R01.loops", "R01.entry"),
+                                example="the pattern inside !( .. ) or inside a catch body"))
     spec = speccmp.load_spec()
     sm = summary.Summ(crate)
     W15 = write_kinds(crate)
